@@ -437,6 +437,71 @@ def rule_table_index(ctx):
     ctx.floor(rid + ".saturating-sites", 1)
 
 
+def rule_palette_fastpath(ctx):
+    """the table-lookup fast path of the inverse palette is only taken when no delta entry is present"""
+    from ..facts import op_place, op_local
+    from ..mirutil import Defs
+    rid = "R-PALETTE-FASTPATH"
+    ctx.rule(rid, "Palette::inverse_inner replaces every index by its palette entry on a fast path (inverse_simple) that adds no "
+                  "prediction.  Indices below nb_deltas are delta entries (value = entry + d_pred prediction), so the decision to take "
+                  "the fast path has to depend on nb_deltas: the value the guarding branch tests is produced by a call one of whose "
+                  "arguments - or, for a closure, captured values - derives from the field `nb_deltas` (today: "
+                  "`(nb_deltas..nb_colors).contains(index)`).  Without it an image all of whose indices are explicit entries "
+                  "decodes its delta entries unpredicted (D53)")
+    md = ctx.prog.crate("jxl_modular")
+    fs = [f for f in md.fn_list if f.path.endswith("::inverse_inner") and "palette" in f.path and f.kind != "Promoted"]
+    if len(fs) != 1:
+        ctx.anchor_missing(rid, "Palette::inverse_inner")
+        return
+    f = fs[0]
+    ctx.seen(f)
+    defs = Defs(f)
+    fast = [b for b, t in f.calls() if callee(t) and callee(t)["fn"].endswith("inverse_simple")]
+    if not fast:
+        ctx.ok(rid, "no-fast-path", "inverse_inner has no separate fast path", fn=f)
+        return
+
+    def from_nb_deltas(l, depth=0, seen=None):
+        seen = seen if seen is not None else set()
+        if l is None or l in seen or depth > 12:
+            return False
+        seen.add(l)
+        for d in defs.of(l):
+            if f.is_cleanup(d[0]):
+                continue
+            if d[2] == "call":
+                if any(from_nb_deltas(op_local(a), depth + 1, seen) for a in d[3][2]):
+                    return True
+                continue
+            if d[2] != "assign":
+                continue
+            rv = d[3][2]
+            places = [rv[2]] if rv[0] == "ref" else [op_place(o) for o in
+                                                    ([rv[1]] if rv[0] in ("use",) else ([rv[2]] if rv[0] in ("cast", "un") else
+                                                                                        ([rv[2], rv[3]] if rv[0] == "bin" else (rv[2] if rv[0] == "agg" else []))))]
+            for pl in places:
+                if pl is None:
+                    continue
+                if any(isinstance(e, list) and e[0] == "." and e[2] == "nb_deltas" for e in pl[1:]):
+                    return True
+                if from_nb_deltas(pl[0], depth + 1, seen):
+                    return True
+        return False
+
+    ok = False
+    for fb in fast:
+        for sb, blk in enumerate(f.blocks):
+            if blk[2] or blk[1][0] != "switch" or not f.dominates(sb, fb) or sb == fb:
+                continue
+            if from_nb_deltas(op_local(blk[1][1])):
+                ok = True
+    if ok:
+        ctx.ok(rid, "fast-path-depends-on-nb_deltas", "the branch that selects inverse_simple tests a value derived from nb_deltas", nontrivial=True, fn=f)
+    else:
+        ctx.bad(rid, "fast-path-ignores-nb_deltas", "the branch that selects the table-lookup fast path does not depend on nb_deltas: explicit "
+                "delta entries (index < nb_deltas) are written out without their prediction", fn=f, pos=f.term_pos(fast[0]))
+
+
 def main(pid, tier, repo=None):
     ctx = Ctx(pid, tier, configs=("workspace",), repo=repo)
     specconst.run(ctx, pid, floor=2)
@@ -446,6 +511,7 @@ def main(pid, tier, repo=None):
     rule_prevchan(ctx)
     rule_prevdepth(ctx)
     rule_table_index(ctx)
+    rule_palette_fastpath(ctx)
     from . import fixguards
     fixguards.run(ctx, pid)
     ctx.not_decided("that every decoded sample equals the encoded integer: predictors (incl. the self-correcting one), context-tree lookup, "
